@@ -529,13 +529,19 @@ Definition fgo_wfb (f : fgo) : bool :=
 
 (* the frame given to extend: labels and data of the same width, every block of the argument's height *)
 Definition extframe_wfb (fidx fcols : list L) (blocks : list blk) : bool :=
-  forallb (blk_wfb (zlen fidx)) blocks && forallb (fun b => negb (blk_width b =? 0)) blocks &&
-  (zlen fcols =? zlen (flat_map blk_flat blocks)) && nodupb fcols && nodupb fidx.
+  forallb (blk_wfb (zlen fidx)) blocks && (zlen fcols =? zlen (flat_map blk_flat blocks)).
+
+(* a Series has as many values as labels *)
+Definition value_wfb (v : gvalue) : bool :=
+  match v with
+  | GSeries sidx _ vals => zlen vals =? zlen sidx
+  | _ => true
+  end.
 
 Fixpoint dom_items (f : fgo) (pairs : list (L * gvalue)) (fill : V) (fdt : dtype) (first : bool) : bool :=
   match pairs with
   | [] => true
-  | (k, v) :: r => dom_append (f_cols f) k &&
+  | (k, v) :: r => dom_append (f_cols f) k && value_wfb v &&
                    (let '(f1, o) := M_set f k v fill fdt in
                     match o with
                     | Ok _ => dom_items f1 r fill fdt false
@@ -545,9 +551,9 @@ Fixpoint dom_items (f : fgo) (pairs : list (L * gvalue)) (fill : V) (fdt : dtype
 
 Definition dom_gop (f : fgo) (op : gop) : bool :=
   match op with
-  | OSet k _ _ _ => dom_append (f_cols f) k
+  | OSet k v _ _ => dom_append (f_cols f) k && value_wfb v
   | OItems pairs fill fdt => dom_items f pairs fill fdt true
-  | OExtSeries name _ _ _ _ _ => dom_append (f_cols f) name
+  | OExtSeries name sidx _ vals _ _ => dom_append (f_cols f) name && (zlen vals =? zlen sidx)
   | OExtFrame fidx fcols blocks _ _ => extframe_wfb fidx fcols blocks && dom_extend (f_cols f) fcols true
   | OExtOther => true
   | ORead => true
